@@ -44,18 +44,7 @@ impl Op {
     ) -> usize {
         let forward = direction == Direction::Fwd;
         #[cfg(geodesy_verif)]
-        crate::verif::emit(
-            "dispatch",
-            vec![
-                ("id", format!("{:?}", self.id)),
-                ("name", self.params.name.clone()),
-                ("def", self.descriptor.definition.clone()),
-                ("req", if forward { "F" } else { "I" }.to_string()),
-                ("inverted", self.descriptor.inverted.to_string()),
-                ("invertible", self.descriptor.invertible.to_string()),
-                ("n", operands.len().to_string()),
-            ],
-        );
+        self.verif_dispatch(forward, operands.len());
         // Short form of (inverted && !forward) || (forward && !inverted)
         #[cfg(not(geodesy_verif))]
         if self.descriptor.inverted != forward {
@@ -72,16 +61,39 @@ impl Op {
             } else {
                 self.descriptor.inv.0(self, ctx, operands)
             };
-            crate::verif::emit(
-                "applied",
-                vec![
-                    ("id", format!("{:?}", self.id)),
-                    ("count", count.to_string()),
-                    ("ran", if ran_fwd { "F" } else { "I" }.to_string()),
-                ],
-            );
+            self.verif_applied(count, ran_fwd);
             count
         }
+    }
+
+    // The `dispatch` and `applied` events: also emitted by the pipeline operator
+    // for a step which is itself a pipeline, and is not applied through `apply`
+    #[cfg(geodesy_verif)]
+    pub(crate) fn verif_dispatch(&self, forward: bool, n: usize) {
+        crate::verif::emit(
+            "dispatch",
+            vec![
+                ("id", format!("{:?}", self.id)),
+                ("name", self.params.name.clone()),
+                ("def", self.descriptor.definition.clone()),
+                ("req", if forward { "F" } else { "I" }.to_string()),
+                ("inverted", self.descriptor.inverted.to_string()),
+                ("invertible", self.descriptor.invertible.to_string()),
+                ("n", n.to_string()),
+            ],
+        );
+    }
+
+    #[cfg(geodesy_verif)]
+    pub(crate) fn verif_applied(&self, count: usize, ran_fwd: bool) {
+        crate::verif::emit(
+            "applied",
+            vec![
+                ("id", format!("{:?}", self.id)),
+                ("count", count.to_string()),
+                ("ran", if ran_fwd { "F" } else { "I" }.to_string()),
+            ],
+        );
     }
 
     pub fn new(definition: &str, ctx: &dyn Context) -> Result<Op, Error> {
